@@ -9,7 +9,7 @@ unset GOWORK
 HERE="$(cd "$(dirname "$0")" && pwd)"
 PATCH="$(readlink -f "$1")"; shift
 PROPS="$*"
-[ -z "$PROPS" ] && PROPS="C01 C02 C03 C04 C05 C06 C07 C08 C09 C10 C12 C13 C14 C15 C16 C17 C18 C19 C20"
+[ -z "$PROPS" ] && PROPS="C01 C02 C03 C04 C05 C06 C07 C08 C09 C10 C11 C12 C13 C14 C15 C16 C17 C18 C19 C20"
 TMP="$(mktemp -d -t trypatch-XXXXXX)"
 trap 'rm -rf "$TMP"' EXIT
 rsync -a --exclude .git "${VERIF_REPO:-/repo}/" "$TMP/repo/"
@@ -19,7 +19,7 @@ fired=""
 for p in $PROPS; do
   (
     mkdir -p "$TMP/v_$p"; cp "$HERE/known_findings.json" "$TMP/v_$p/"
-    "$HERE/bin/morlockcheck" -property "$p" -tier quick -repo "$TMP/repo" -verif "$TMP/v_$p" > "$TMP/out_$p.txt" 2>&1
+    "${MORLOCKCHECK:-$HERE/bin/morlockcheck}" -property "$p" -tier quick -repo "$TMP/repo" -verif "$TMP/v_$p" > "$TMP/out_$p.txt" 2>&1
     echo $? > "$TMP/rc_$p"
   ) &
 done
